@@ -283,8 +283,6 @@ Section RenameExec.
     rewrite (filter_map_R (fun x => bytes_eqb (sel_key x) (sel_key s))) by (intros; now rewrite sel_key_R).
     rewrite (filter_map_R (fun x => negb (bytes_eqb (sel_key x) (sel_key s)))) by (intros; now rewrite sel_key_R).
     rewrite IH. f_equal. f_equal.
-    change (R s :: map R (filter (fun x => bytes_eqb (sel_key x) (sel_key s)) rest))
-      with (map R (s :: filter (fun x => bytes_eqb (sel_key x) (sel_key s)) rest)).
-    apply subs_R.
+    exact (subs_R (s :: filter (fun x => bytes_eqb (sel_key x) (sel_key s)) rest)).
   Qed.
 End RenameExec.
